@@ -210,6 +210,10 @@ func (p *Parser) recoverFromError(ctx context.Context, stream *TokenStream, stac
 	for _, tok := range stream.pending {
 		// Try to cover all nearby invalid tokens.
 		if token.Type(tok.symbol) == token.INVALID_TOKEN {
+			if tok.offset < stack[len(stack)-1].sym.endoffset {
+				// This token precedes an (empty) symbol that is already on the stack.
+				continue
+			}
 			if s > tok.offset {
 				s = tok.offset
 			}
